@@ -231,6 +231,30 @@ func (s *Sim) opOpenQuery(op *Op) {
 		p, _ := s.call(func() { f.Query(qrels) })
 		if !p {
 			s.violate("C07", "lock.capacity", "65th", true, "a 65th simultaneous query did not panic")
+			return
+		}
+		// as soon as one of the 64 is closed, a query can be opened again
+		var last *OpenQuery
+		for _, oq := range s.queries {
+			if !oq.Done {
+				last = oq
+			}
+		}
+		if last != nil {
+			if p, val := s.call(func() { last.Q.Close() }); p {
+				s.violate("C07", "lock.release", "close_at_capacity", true, "closing one of 64 open queries panicked: %v", val)
+				return
+			}
+			last.Done = true
+			last.OnEntity = false
+			s.lockDepth--
+			s.C.Checks["lock.capacity.reopen"]++
+			if p, val := s.call(func() {
+				q := ecs.NewFilter0(s.W).Query()
+				q.Close()
+			}); p {
+				s.violate("C07", "lock.capacity", "reopen_after_full", true, "with 63 queries open after 64 had been open, a further query was refused: %v", val)
+			}
 		}
 		return
 	}
@@ -365,10 +389,21 @@ func (s *Sim) checkQueryData(oq *OpenQuery, h ecs.Entity, l int) {
 			s.violate("C03", "query.data", "UnsafeQuery.IDs", false, "UnsafeQuery.IDs() has %d IDs for entity label %d, Unsafe.IDs has %d", ids.Len(), l, want.Len())
 			return
 		}
+		optional := 0
 		for tp := 0; tp < NumTypes; tp++ {
-			if raw.Has(s.ids[tp]) != u.Has(h, s.ids[tp]) {
-				s.violate("C03", "query.data", "UnsafeQuery.Has", false, "UnsafeQuery.Has(T%02d) = %v for entity label %d, Unsafe.Has = %v", tp, raw.Has(s.ids[tp]), l, u.Has(h, s.ids[tp]))
+			has := u.Has(h, s.ids[tp])
+			if raw.Has(s.ids[tp]) != has {
+				s.violate("C03", "query.data", "UnsafeQuery.Has", false, "UnsafeQuery.Has(T%02d) = %v for entity label %d, Unsafe.Has = %v", tp, raw.Has(s.ids[tp]), l, has)
 				return
+			}
+			// a component the entity has although the filter does not ask for it can be read as well
+			// (`if q.Has(id) { q.Get(id) }`)
+			if has && optional < 2 && !contains(ts, tp) {
+				optional++
+				if got, want := raw.Get(s.ids[tp]), u.Get(h, s.ids[tp]); got != want {
+					s.violate("C03", "query.data", "UnsafeQuery.Get/optional", false, "UnsafeQuery.Get(T%02d) (not in the filter, present on entity label %d) = %x, Unsafe.Get = %x", tp, l, ptrOf(got), ptrOf(want))
+					return
+				}
 			}
 		}
 	}
